@@ -1,6 +1,7 @@
 package car
 
 import (
+	"bytes"
 	"errors"
 	"fmt"
 	"io"
@@ -70,6 +71,16 @@ func NewReader(r io.ReaderAt, opts ...Option) (*Reader, error) {
 	}
 
 	if cr.Version == 2 {
+		// The CARv2 pragma is a fixed byte sequence and the header follows it at a fixed
+		// offset. A prefix that merely decodes to {version: 2} (e.g. with another length
+		// byte) is not a CARv2; sequential readers would look for the header elsewhere.
+		pragma := make([]byte, PragmaSize)
+		if n, err := r.ReadAt(pragma, 0); n != PragmaSize || !bytes.Equal(pragma, Pragma) {
+			if err == nil || err == io.EOF {
+				err = errors.New("invalid CARv2 pragma")
+			}
+			return nil, err
+		}
 		if err := cr.readV2Header(); err != nil {
 			return nil, err
 		}
